@@ -56,7 +56,7 @@ PROPS = {
         ],
     },
     "C11": {
-        "units": ["account", "acctproto", "acctstore", "texts"],
+        "units": ["account", "acctproto", "acctstore", "texts", "storage"],
         "design_ref": "DESIGN.md section 5 C11",
         "technique": "Verus function contracts over a ghost record of what the CA holds; signing-key preconditions on the account requests",
         "text": "Deductive proof that synchronize registers only when no account URL is stored or the external binding changed, otherwise sends at "
@@ -195,7 +195,7 @@ PROPS = {
         ],
     },
     "C05": {
-        "units": ["chalproof", "schedule", "ident", "issue", "revdns", "keys", "texts"],
+        "units": ["chalproof", "schedule", "ident", "issue", "revdns", "keys", "texts", "hooks"],
         "design_ref": "DESIGN.md section 5 C05",
         "technique": "Verus function contracts: proof strings against RFC 8555 section 8 / RFC 8737 texts pinned in the contract; entry lookup against a spec function of (identifier, wildcard flag)",
         "text": "Deductive proof that the key authorization is token.base64url(SHA-256(thumbprint input)), that http-01 / dns-01 / tls-alpn-01 "
@@ -223,7 +223,7 @@ PROPS = {
         ],
     },
     "C07": {
-        "units": ["renew", "schedule", "issue", "http", "hooks"],
+        "units": ["renew", "schedule", "issue", "http", "hooks", "storage"],
         "design_ref": "DESIGN.md section 5 C07",
         "technique": "Verus function contracts over ghost counters (requests, post-operation runs, time slept since the last request)",
         "text": "Deductive proof that one task step performs exactly one request and exactly one post-operation hook run, reports success iff "
